@@ -42,6 +42,31 @@ class Bail(Exception):
     pass
 
 
+SIGS = {}      # simple name -> parameter list, for classes (constructor, without self) and module-level functions defined once in the package
+
+
+def build_signatures(trees):
+    """trees: iterable of parsed modules.  Names defined more than once in the package are left out."""
+    seen, out = {}, {}
+
+    def params_of(fn, drop_first):
+        a = fn.args
+        if a.vararg or a.kwarg or a.posonlyargs:
+            return None
+        ps = [x.arg for x in a.args]
+        return ps[1:] if drop_first else ps
+    for t in trees:
+        for st in t.body:
+            if isinstance(st, (ast.FunctionDef, ast.AsyncFunctionDef)):
+                seen[st.name] = seen.get(st.name, 0) + 1
+                out[st.name] = params_of(st, False)
+            elif isinstance(st, ast.ClassDef):
+                seen[st.name] = seen.get(st.name, 0) + 1
+                init = [m for m in st.body if isinstance(m, ast.FunctionDef) and m.name == "__init__"]
+                out[st.name] = params_of(init[0], True) if len(init) == 1 else None
+    return {k: v for k, v in out.items() if seen[k] == 1 and v is not None}
+
+
 # ---------------------------------------------------------------------------------------------------------------------
 # small helpers
 def _fn_nodes(fn):
@@ -357,7 +382,8 @@ def _stmt_effects(st):
 
 # ---------------------------------------------------------------------------------------------------------------------
 class FuncCanon(object):
-    def __init__(self, fn, modconsts, stats):
+    def __init__(self, fn, modconsts, stats, clsmethods=None):
+        self.clsmethods = clsmethods or {}
         self.fn = fn
         self.modconsts = modconsts       # names of imported modules / module-level names (stable operands)
         self.stats = stats
@@ -434,7 +460,7 @@ class FuncCanon(object):
         changed = False
         for blk in _all_blocks(self.fn):
             top = blk is self.fn.body
-            if self.star(blk) or self.split(blk) or self.retsplit(blk) or self.forelse(blk) or self.rot(blk) or self.brk(blk, top) or self.wtop(blk) or self.ifs(blk) or self.sink(blk) or self.unpack(blk) or self.fwd(blk):
+            if self.star(blk) or self.kw(blk) or self.split(blk) or self.retsplit(blk) or self.forelse(blk) or self.rot(blk) or self.brk(blk, top) or self.wtop(blk) or self.ifs(blk) or self.sink(blk) or self.unpack(blk) or self.fwd(blk):
                 return True
         return changed
 
@@ -513,6 +539,33 @@ class FuncCanon(object):
             if isinstance(n, ast.Lambda):
                 continue
             stack.extend(ast.iter_child_nodes(n))
+
+    # -- KW --------------------------------------------------------------------------------------------------------
+    def kw(self, blk):
+        """f(a, p2=b) -> f(a, b) when f is a package class / function / method of this class whose next parameter is p2."""
+        first = None
+        a = self.fn.args
+        if a.args and not any(_dec(d) == "staticmethod" for d in self.fn.decorator_list):
+            first = a.args[0].arg
+        for st in blk:
+            for n in self._own_exprs(st):
+                if not (isinstance(n, ast.Call) and n.keywords) or any(isinstance(x, ast.Starred) for x in n.args) or any(k.arg is None for k in n.keywords):
+                    continue
+                params = None
+                f = n.func
+                if isinstance(f, ast.Name) and f.id in SIGS and f.id not in self.params and not self.stores.get(f.id):
+                    params = SIGS[f.id]
+                elif isinstance(f, ast.Attribute) and isinstance(f.value, ast.Name) and first and f.value.id == first and f.attr in self.clsmethods and not self.stores.get(first):
+                    params = self.clsmethods[f.attr]
+                if not params:
+                    continue
+                rest = params[len(n.args):]
+                if rest and n.keywords[0].arg == rest[0]:
+                    n.args.append(n.keywords[0].value)
+                    del n.keywords[0]
+                    self.bump("KW")
+                    return True
+        return False
 
     # -- STAR ------------------------------------------------------------------------------------------------------
     def star(self, blk):
@@ -765,7 +818,13 @@ class FuncCanon(object):
             if not (isinstance(st, ast.Assign) and len(st.targets) == 1 and isinstance(st.targets[0], ast.Name)):
                 continue
             v = st.targets[0].id
-            if v in self.params or v in self.captured or len(self.stores.get(v, ())) != 1:
+            if v in self.params or v in self.captured:
+                continue
+            if len(self.stores.get(v, ())) != 1:
+                # (d) a name reused for several independent values, each read only by the statement right after its assignment
+                if i + 1 < len(blk) and self._adjacent_webs(v) and self._fwd_adjacent(blk, i, v):
+                    self.bump("FWD")
+                    return True
                 continue
             loads = self.loads.get(v, [])
             if not loads:
@@ -788,6 +847,10 @@ class FuncCanon(object):
             if self.pure_stable(e) and (len(loads) == 1 or _expr_weight(e) <= 12):
                 for l in loads:
                     self._replace(later, l, copy.deepcopy(e) if len(loads) > 1 else e)
+                del blk[i]
+                self.bump("FWD")
+                return True
+            if len(loads) == 2 and i + 1 < len(blk) and isinstance(blk[i + 1], ast.If) and self._exclusive_uses(blk, i, e, loads):
                 del blk[i]
                 self.bump("FWD")
                 return True
@@ -832,6 +895,96 @@ class FuncCanon(object):
             self.bump("FWD")
             return True
         return False
+
+    def _adjacent_webs(self, v):
+        """Every load of v sits in a statement whose immediately preceding sibling is a plain `v = <expr>`; every store of v is
+        such a plain assignment."""
+        loads = self.loads.get(v, [])
+        if not loads:
+            return False
+        for s_ in self.stores.get(v, []):
+            if not isinstance(s_, ast.Name):
+                return False
+        ok_loads = set()
+        n_plain = 0
+        for blk in _all_blocks(self.fn):
+            for k, st in enumerate(blk):
+                if isinstance(st, ast.Assign) and len(st.targets) == 1 and isinstance(st.targets[0], ast.Name) and st.targets[0].id == v:
+                    n_plain += 1
+                    if any(isinstance(n, ast.Name) and n.id == v for n in ast.walk(st.value)):
+                        return False
+                    if k + 1 < len(blk):
+                        nxt = blk[k + 1]
+                        inside = [n for n, _e in eval_order(nxt) if isinstance(n, ast.Name) and n.id == v and isinstance(n.ctx, ast.Load)] if not isinstance(nxt, (ast.While, ast.Try)) else []
+                        if len(inside) == 1:
+                            ok_loads.add(id(inside[0]))
+        return n_plain == len(self.stores.get(v, [])) and all(id(l) in ok_loads for l in loads)
+
+    def _fwd_adjacent(self, blk, i, v):
+        st, tgt = blk[i], blk[i + 1]
+        e = st.value
+        if any(isinstance(n, (ast.Yield, ast.YieldFrom, ast.NamedExpr)) for n in ast.walk(e)):
+            return False
+        load = None
+        names, heap = _reads(e)
+        impure = _has_call(e)
+        for n, eager in eval_order(tgt) if not isinstance(tgt, (ast.While, ast.Try)) else ():
+            if isinstance(n, ast.Name) and n.id == v and isinstance(n.ctx, ast.Load):
+                if not eager and (impure or heap):
+                    return False
+                load = n
+                break
+            if isinstance(n, (ast.Call, ast.Await)) and not (isinstance(n, ast.Call) and _inert_call(n)) and (heap or impure):
+                return False
+        if load is None:
+            return False
+        if isinstance(tgt, ast.AugAssign) and not isinstance(tgt.target, ast.Name):
+            return False
+        if not isinstance(e, (ast.Name, ast.Attribute)) and any(isinstance(c, ast.Call) and c.func is load for c in ast.walk(tgt)):
+            return False
+        self._replace([tgt], load, e)
+        del blk[i]
+        return True
+
+    def _exclusive_uses(self, blk, i, e, loads):
+        """(c) `v = e` ; `if c: S1 [else: S2]` [; S2]  with one use of v at the very start of each exclusive continuation and a test c
+        that has no effect and reads only stable names: e is evaluated exactly once on either path, right where v was read."""
+        iff = blk[i + 1]
+        for n in ast.walk(iff.test):
+            if isinstance(n, ast.Name):
+                if not self.stable_name(n.id):
+                    return False
+            elif isinstance(n, (ast.Call, ast.Await, ast.Attribute, ast.Subscript, ast.NamedExpr, ast.Yield, ast.YieldFrom)):
+                return False
+        if not iff.body:
+            return False
+        if iff.orelse:
+            conts = [iff.body[0], iff.orelse[0]]
+        elif always_exits(iff.body) and i + 2 < len(blk):
+            conts = [iff.body[0], blk[i + 2]]
+        else:
+            return False
+        found = []
+        for c in conts:
+            if isinstance(c, (ast.While, ast.Try, ast.FunctionDef, ast.AsyncFunctionDef, ast.ClassDef)):
+                return False
+            hit = None
+            for n, eager in eval_order(c):
+                if any(n is l for l in loads):
+                    if not eager:
+                        return False
+                    hit = n
+                    break
+                if isinstance(n, (ast.Call, ast.Await)) and not (isinstance(n, ast.Call) and _inert_call(n)):
+                    return False
+            if hit is None:
+                return False
+            found.append((c, hit))
+        if found[0][1] is found[1][1]:
+            return False
+        for c, hit in found:
+            self._replace([c], hit, copy.deepcopy(e))
+        return True
 
     def _replace(self, stmts, old, new):
         for s in stmts:
@@ -1306,18 +1459,33 @@ def canonicalise(tree, modname, known, stats=None, log=None):
     log = log if log is not None else []
     modconsts = _module_names(tree)
 
+    def method_table(cls):
+        out = {}
+        for m in cls.body:
+            if isinstance(m, (ast.FunctionDef, ast.AsyncFunctionDef)):
+                a = m.args
+                if a.vararg or a.kwarg or a.posonlyargs:
+                    continue
+                decs = [_dec(d) for d in m.decorator_list]
+                if "property" in decs or any(d.endswith("setter") for d in decs):
+                    continue
+                ps = [x.arg for x in a.args]
+                out[m.name] = ps if "staticmethod" in decs else ps[1:]
+        return out
+
     def each_function():
         for st in tree.body:
             if isinstance(st, (ast.FunctionDef, ast.AsyncFunctionDef)):
-                yield st
+                yield st, {}
             elif isinstance(st, ast.ClassDef):
+                mt = method_table(st)
                 for m in st.body:
                     if isinstance(m, (ast.FunctionDef, ast.AsyncFunctionDef)):
-                        yield m
+                        yield m, mt
 
     def normalise():
-        for fn in each_function():
-            fc = FuncCanon(fn, modconsts, stats)
+        for fn, mt in each_function():
+            fc = FuncCanon(fn, modconsts, stats, mt)
             fc.fresh = _fresh_registry(fn)
             try:
                 fc.run()
@@ -1340,6 +1508,18 @@ if __name__ == "__main__":
     modname = sys.argv[2] if len(sys.argv) > 2 else path.split("adb_shell/")[-1][:-3].replace("/", ".")
     t = ast.parse(open(path).read())
     st, lg = {}, []
+    import os
+    pk = path[:path.index("adb_shell/") + len("adb_shell")]
+    trees = []
+    for dp, dn, fns in os.walk(pk):
+        for fn_ in fns:
+            if fn_.endswith(".py"):
+                try:
+                    trees.append(ast.parse(open(os.path.join(dp, fn_)).read()))
+                except SyntaxError:
+                    pass
+    SIGS.clear()
+    SIGS.update(build_signatures(trees))
     canonicalise(t, modname, KNOWN, st, lg)
     want = sys.argv[3:]
     for node in ast.walk(t):
